@@ -17,7 +17,7 @@ Desc(r) ==
   CASE r.kind \in {"query", "query_iter", "query_page"} -> [op |-> "query", text |-> r.text0, params |-> ParamsOf(r, << >>), tracing |-> r.tracing]
     [] r.kind \in {"execute", "execute_iter", "execute_page"} -> [op |-> "execute", id |-> r.ids.insert, meta_id |-> <<0, << >>>>, params |-> ParamsOf(r, r.values), tracing |-> r.tracing]
     [] r.kind = "batch" -> [op |-> "batch", type |-> r.btype, cl |-> r.cl, serial |-> r.serial, ts |-> <<r.ts[1], I64(r.ts[2])>>, tracing |-> r.tracing,
-                            stmts |-> <<[kind |-> 1, id |-> r.ids.insert, values |-> r.values], [kind |-> 0, text |-> r.text0, values |-> << >>],
+                            stmts |-> <<[kind |-> 1, id |-> r.ids.insert, values |-> r.values], IF r.bunprep = 1 /\ Len(r.values) > 0 THEN [kind |-> 1, id |-> r.ids.insert, values |-> r.values] ELSE [kind |-> 0, text |-> r.text0, values |-> << >>],
                                         [kind |-> 1, id |-> r.ids.insert, values |-> r.values]>>]
 SessionFrameOK(r) ==
   LET d == Desc(r) IN
